@@ -13,6 +13,8 @@
 (* RIP text or a definite outcome is drift; the recorded state is adopted so *)
 (* that one divergence is reported once.  While the fallback ANSI parser is  *)
 (* outside its modelled part (st.ansi = "O") nothing is compared.            *)
+(* Registers: 3 characters, 7 worker crashes, 9 cases, 10 modelled steps,    *)
+(* 11 executed commands compared, 12 steps outside the modelled ANSI part.   *)
 (***************************************************************************)
 EXTENDS Rip, TraceLib
 VARIABLES l, st
@@ -28,7 +30,7 @@ Adopt(x, e) == [x.st EXCEPT !.tag = e.tag, !.lvl = e.lvl, !.ps = e.ps, !.hc = (e
                             !.ansi = IF e.tag # "Default" THEN "D" ELSE @]
 Summary(s) == [tag |-> s.tag, lvl |-> s.lvl, ps |-> s.ps, hc |-> s.hc, cnt |-> s.cnt, cmd |-> s.cmd, ansi |-> s.ansi, rip |-> s.rip, susp |-> s.susp]
 ModelPart(x, same, e) ==
-  /\ Bump(5) /\ BumpBy(6, Len(e.rec))
+  /\ Bump(10) /\ BumpBy(11, Len(e.rec))
   /\ Expect(same, "rip-step", l, [c |-> e.c, before |-> Summary(st), expected |-> Summary(x.st), exec |-> x.exec, res |-> x.res,
                                   got |-> [tag |-> e.tag, lvl |-> e.lvl, ps |-> e.ps, hc |-> e.hc, cnt |-> e.cnt, rec |-> e.rec, r |-> e.r]])
   /\ st' = IF same THEN x.st ELSE Adopt(x, e)
@@ -36,14 +38,14 @@ WithExp(x, e) == ModelPart(x, Matches(x, e), e)
 \* outside the modelled part of the fallback parser: follow the recording; a '!' that starts a RIP sequence shows that it is
 \* back in state Default
 Opaque(e) ==
-  /\ Bump(7)
+  /\ Bump(12)
   /\ st' = IF e.tag # "Default" THEN [st EXCEPT !.tag = e.tag, !.lvl = e.lvl, !.ps = e.ps, !.hc = (e.hc = 1), !.cnt = e.cnt, !.ansi = "D", !.rip = TRUE]
            ELSE [st EXCEPT !.ps = e.ps, !.hc = (e.hc = 1), !.cnt = e.cnt]
 
 Next ==
   /\ l <= Len(Rec)
   /\ LET e == Rec[l] IN
-     CASE e.ev = "reset" -> Bump(4) /\ st' = InitSt
+     CASE e.ev = "reset" -> Bump(9) /\ st' = InitSt
        [] e.ev = "ch" ->
             /\ Bump(3)
             /\ Check(e.r = "ok" \/ e.r = "err", "C20", "Outcome", l, [emu |-> "rip", c |-> e.c, r |-> e.r])
@@ -52,7 +54,7 @@ Next ==
                ELSE IF st.ansi = "O" THEN Opaque(e)
                ELSE WithExp(RipStepX(st, e.c, Has(e, "cls")), e)
        [] e.ev = "crash" ->
-            /\ Bump(8)
+            /\ Bump(7)
             /\ Check(e.kind # "abort", "C20", "Abort", l, [emu |-> e.emu, msg |-> e.msg])
             /\ Check(e.kind # "timeout", "C20", "Stall", l, [emu |-> e.emu, msg |-> e.msg])
             /\ st' = st
